@@ -30,21 +30,35 @@ def run(ctx):
     if ss:
         b = ss.body
         sy = Sym(ss)
-        dels = [c for c in nonforeign_calls(ss) if c.fn is ss and c.is_("Fn::call", "FnOnce::call_once", "FnMut::call_mut") and is_param(arg_syms(c)[0], 5)]
-        if len(dels) != 1:
-            chk.unrecognised("C12.a", f"{ss.path} [delete_op call]", f"expected one call of delete_op, found {len(dels)}", ss.loc())
+        def is_delete_call(c):
+            if c.is_("Fn::call", "FnOnce::call_once", "FnMut::call_mut") and sym_arg(sym_through(arg_syms(c)[0])) is not None:
+                return True  # the deletion callback handed in by should_store_<kind>
+            return c.is_("Registry<K, S>::delete_counter", "Registry<K, S>::delete_gauge", "Registry<K, S>::delete_histogram")
+
+        def is_delete_sym(x):
+            x = strip_sym(x)
+            if not (isinstance(x, tuple) and x and x[0] == "call"):
+                return False
+            if isinstance(x[3], str) and x[3].endswith(("Fn::call", "FnOnce::call_once", "FnMut::call_mut")) and sym_arg(sym_through(x[2][0])) is not None:
+                return True
+            return any(isinstance(n, str) and path_is(n, f"Registry<K, S>::delete_{k}") for n in (x[1], x[3]) for k in KINDS)
+
+        dels = [c for c in nonforeign_calls(ss) if c.fn is ss and is_delete_call(c)]
+        if len(dels) not in (1, 3):
+            chk.unrecognised("C12.a", f"{ss.path} [delete_op call]", f"expected one call of the deletion callback (or one delete_<kind> call per kind), found {len(dels)}", ss.loc())
         else:
-            dc = dels[0]
+          conds = {"timeout set": True, "mask matches kind": True, "entry exists": True, "same generation": True, "strictly older than timeout": True}
+          for dc in dels:
             g = gates(b, dc.bb)
-            conds = {"timeout set": False, "mask matches kind": False, "entry exists": False, "same generation": False, "strictly older than timeout": False}
+            got = {k: False for k in conds}
             for d, lab in g:
                 d = strip_sym(d)
                 if lab == "Some" and d[0] == "field" and d[2] == "idle_timeout":
-                    conds["timeout set"] = True
+                    got["timeout set"] = True
                 if lab is True and sym_is_call(d, "MetricKindMask::matches") and strip_sym(d[2][0])[0] == "field" and strip_sym(d[2][0])[2] == "mask" and is_param(d[2][1], 4):
-                    conds["mask matches kind"] = True
+                    got["mask matches kind"] = True
                 if lab == "Some" and sym_is_call(d, "get_mut", "HashMap<K, V, S, A>::get", "get") and is_param(d[2][1], 1):
-                    conds["entry exists"] = True
+                    got["entry exists"] = True
                 if sym_is_call(d, "PartialEq::eq", "PartialEq::ne"):
                     a0, a1 = strip_sym(d[2][0]), strip_sym(d[2][1])
                     pair = {repr(is_param(a0, 2)), repr(is_param(a1, 2))}
@@ -53,38 +67,42 @@ def run(ctx):
                     remembered = "get_mut" in repr(other) or "get(" in sym_str(other)
                     want = True if sym_is_call(d, "PartialEq::eq") else False
                     if one_is_gen and remembered and lab is want:
-                        conds["same generation"] = True
+                        got["same generation"] = True
+                cmp_ = None
                 if sym_is_call(d, "PartialOrd::gt", "PartialOrd::lt"):
-                    a0, a1 = strip_sym(d[2][0]), strip_sym(d[2][1])
-                    elapsed, tmo = (a0, a1) if sym_is_call(d, "PartialOrd::gt") else (a1, a0)
-                    ok_el = sym_is_call(elapsed, "Sub::sub") and sym_is_call(strip_sym(elapsed[2][0]), "Clock::now") and "get_mut" in repr(elapsed[2][1])
+                    cmp_ = ("Gt" if sym_is_call(d, "PartialOrd::gt") else "Lt", strip_sym(d[2][0]), strip_sym(d[2][1]))
+                elif d[0] == "bin" and d[1] in ("Gt", "Lt"):
+                    cmp_ = (d[1], strip_sym(d[2]), strip_sym(d[3]))
+                if cmp_:
+                    elapsed, tmo = (cmp_[1], cmp_[2]) if cmp_[0] == "Gt" else (cmp_[2], cmp_[1])
+                    ok_el = sym_is_call(elapsed, "Sub::sub", "Instant::duration_since", "Instant::saturating_duration_since") and sym_is_call(strip_sym(elapsed[2][0]), "Clock::now") and ("get_mut" in repr(elapsed[2][1]) or "get(" in sym_str(elapsed[2][1]))
                     ok_t = "'idle_timeout'" in repr(tmo)
                     if ok_el and ok_t and lab is True:
-                        conds["strictly older than timeout"] = True
+                        got["strictly older than timeout"] = True
+            for k_ in conds:
+                conds[k_] = conds[k_] and got[k_]
+          if True:
+            dc = dels[0]
             for name, v in conds.items():
                 chk.ob("C12.a", f"{ss.path} [delete requires: {name}]", v, f"delete_op is only reached when {name}" if v else f"the deletion is reachable without `{name}` holding (or the comparison is not the strict (now - last_update) > timeout)", dc.loc())
             # removal of the remembered entry exactly when deleted; false only then
             rem = [c for c in nonforeign_calls(ss) if c.fn is ss and c.is_("HashMap<K, V, S, A>::remove", "remove", "remove_entry") and is_param(arg_syms(c)[1], 1)]
             falses = [i for i, k, s in b.stmts() if s["k"] == "assign" and s["p"]["l"] == 0 and s["rv"]["k"] == "use" and (s["rv"]["a"].get("const") or {}).get("bool") is False]
-            def only_true_via_delete(d):
-                alts = []
+            from facts import PredFlow
 
-                def flat(x):
-                    x = strip_sym(x)
-                    if x[0] == "phi":
-                        for y in x[1]:
-                            flat(y)
-                    else:
-                        alts.append(x)
-
-                flat(d)
-                rest = [x for x in alts if x[:3] != ("const", "bool", False)]
-                return bool(rest) and all(sym_is_call(x, "Fn::call", "FnOnce::call_once", "FnMut::call_mut") and is_param(x[2][0], 5) for x in rest)
-
-            def gated_by_deleted(bb):
-                return b.dominates(dc.bb, bb) or any(lab is True and only_true_via_delete(d) for d, lab in gates(b, bb))
-
-            ok = len(rem) == 1 and gated_by_deleted(rem[0].bb) and len(falses) == 1 and (b.dominates(rem[0].bb, falses[0]) or rem[0].bb == falses[0])
+            pf = PredFlow(ss, lambda subj, v: None, lambda x: ("P", "N") if is_delete_sym(x) else None)  # P = "the deletion succeeded"
+            # literal `false` only under P; any other result must not be false under not-P: reuse the agreement test on the negation
+            res_ok = True
+            n_res = 0
+            for i, k, st in b.stmts():
+                if st["k"] != "assign" or st["p"]["l"] != 0 or st["p"].get("pr") or pf.at(i) == "B":
+                    continue
+                n_res += 1
+                v = pf._bool_rv(st["rv"], dict(pf._env_at(i, k)), pf.at(i))
+                # (when_true, when_false): the result may be false only when P holds, true only when it does not
+                if v[1] not in ("P", "B") or v[0] not in ("N", "T", "B"):
+                    res_ok = False
+            ok = len(rem) == 1 and pf.at(rem[0].bb) == "P" and n_res > 0 and res_ok
             chk.ob("C12.a", f"{ss.path} [entry removed when deleted; false only then]", ok, "the remembered entry is removed on the deleted path and only that path returns false" if ok else "a deleted metric leaves its remembered (generation, time) behind, or `false` is returned without a deletion: a re-registered metric with the same update count is dropped at once", ss.loc())
         # changed generation updates both fields; first sighting inserts (gen, now)
         ins = [c for c in nonforeign_calls(ss) if c.fn is ss and c.is_("HashMap<K, V, S, A>::insert", "insert")]
@@ -113,10 +131,16 @@ def run(ctx):
         gm = [c for c in nonforeign_calls(ss) if c.fn is ss and c.is_("get_mut", "HashMap<K, V, S, A>::get")]
         ok = False
         detail = "no selection of the state by kind found"
-        if len(sw) == 1 and gm:
+        if sw and gm:
+          for sw_i in sw:
             sel = {}
-            for a in b.term(sw[0])["arms"]:
-                blocks = {x for x in b.reachable(a["bb"]) if b.edge_dominates((sw[0], a["bb"]), x)}
+            arms_ = list(b.term(sw_i)["arms"])
+            covered = {a.get("variant") for a in arms_}
+            rest = [v for v in (b.term(sw_i).get("all_variants") or []) if v not in covered]
+            if len(rest) == 1:
+                arms_.append({"variant": rest[0], "bb": b.term(sw_i)["otherwise"]})
+            for a in arms_:
+                blocks = {x for x in b.reachable(a["bb"]) if b.edge_dominates((sw_i, a["bb"]), x)}
                 idx = set()
                 for x in blocks:
                     for s in b.blocks[x]["s"]:
@@ -130,10 +154,28 @@ def run(ctx):
                                     idx.add(e["cidx"])
                                 if isinstance(e, dict) and "f" in e and e.get("f") not in ("0", "1"):
                                     idx.add(e["f"])
+                            # a slot number chosen in this arm (e.g. a helper returning the index of the kind's map)
+                            if s["rv"]["k"] == "use" and "int" in (s["rv"]["a"].get("const") or {}) and b.locals[s["p"]["l"]]["ty"] == "usize":
+                                idx.add(s["rv"]["a"]["const"]["int"])
                 sel[a["variant"]] = idx
             vals = [tuple(sorted(map(str, v))) for v in sel.values()]
-            ok = len(sel) == 3 and all(len(v) == 1 for v in sel.values()) and len(set(vals)) == 3
-            detail = f"kind -> slot: {sel}"
+            ok_i = len(sel) == 3 and all(len(v) == 1 for v in sel.values()) and len(set(vals)) == 3
+            if ok_i or not ok:
+                detail = f"kind -> slot: {sel}"
+            if ok_i:
+                # the chosen slot really selects the remembered state: some index projection uses exactly these values
+                used = False
+                for _, _, s in b.stmts():
+                    if s["k"] == "assign":
+                        for e in (s["rv"].get("p", {}).get("pr") or []):
+                            if isinstance(e, dict) and ("idx" in e or "cidx" in e or "f" in e):
+                                used = True
+                ok = used
+                break
+            if not all(len(v) == 0 for v in sel.values()):
+                # this switch does map kinds to slots, but not injectively
+                ok = False
+                break
         elif gm:
             # keyed by (kind, key)?
             k = strip_sym(arg_syms(gm[0])[1])
